@@ -217,6 +217,9 @@ def check_server(prod, version, banner, kind, mk, st):
                 st.violation('addition-of-cert-sk-or-pseudo-algorithm', dict(detail, cat=cat, name=name))
             if recognised and prod in ('OpenSSH', 'Dropbear SSH', 'libssh') and known_in(prod, version, cat, name) is False:
                 st.violation('addition-not-available-in-version:%s' % prod, dict(detail, cat=cat, name=name))
+            if prod == 'TinySSH':
+                # the database dates no algorithm for TinySSH: nothing can be shown to be available in the identified version
+                st.violation('addition-not-available-in-version:TinySSH', dict(detail, cat=cat, name=name))
     if recognised and prod in ('OpenSSH', 'Dropbear SSH', 'libssh'):
         rec_del = set((c, n) for _l, a, c, n in recs if a in ('del', 'chg'))
         for cat in CATS:
